@@ -72,11 +72,25 @@ def _negative(t):
 
 
 def _neg(t):
+    """negation of a condition (used only where truthiness alone matters: `if` / `while` tests), in negation normal form"""
     if isinstance(t, ast.UnaryOp) and isinstance(t.op, ast.Not):
-        return t.operand
+        return _nnf(t.operand)
+    if isinstance(t, ast.BoolOp):
+        dual = ast.Or() if isinstance(t.op, ast.And) else ast.And()
+        return ast.copy_location(ast.BoolOp(op=dual, values=[_neg(v) for v in t.values]), t)
     if isinstance(t, ast.Compare) and len(t.ops) == 1 and type(t.ops[0]) in NEGOP:
         return ast.copy_location(ast.Compare(left=t.left, ops=[NEGOP[type(t.ops[0])]()], comparators=t.comparators), t)
     return ast.copy_location(ast.UnaryOp(op=ast.Not(), operand=t), t)
+
+
+def _nnf(t):
+    """a test with `not` pushed through and / or (De Morgan): `not (a and b)` is `not a or not b`"""
+    if isinstance(t, ast.UnaryOp) and isinstance(t.op, ast.Not) and isinstance(t.operand, (ast.BoolOp, ast.UnaryOp)) and \
+            (isinstance(t.operand, ast.BoolOp) or isinstance(t.operand.op, ast.Not)):
+        return _neg(t.operand)
+    if isinstance(t, ast.BoolOp):
+        return ast.copy_location(ast.BoolOp(op=t.op, values=[_nnf(v) for v in t.values]), t)
+    return t
 
 
 def _count_names(node, name):
@@ -104,6 +118,16 @@ class _Subst(ast.NodeTransformer):
         return n
 
     visit_AsyncFunctionDef = visit_Lambda = visit_ClassDef = visit_FunctionDef
+
+
+def _quantifier(e):
+    """('any'|'all', generator) for `any(E for T in I if C)` / `all(..)` with one plain generator, else None"""
+    if isinstance(e, ast.Call) and isinstance(e.func, ast.Name) and e.func.id in ('any', 'all') and len(e.args) == 1 and not e.keywords \
+            and isinstance(e.args[0], (ast.GeneratorExp, ast.ListComp)) and len(e.args[0].generators) == 1 and not e.args[0].generators[0].is_async \
+            and not any(isinstance(x, (ast.ListComp, ast.SetComp, ast.DictComp, ast.GeneratorExp, ast.Lambda, ast.Await, ast.NamedExpr))
+                        for x in ast.walk(e.args[0]) if x is not e.args[0]):
+        return e.func.id, e.args[0]
+    return None
 
 
 def _block(stmts, fn_counts):
@@ -152,6 +176,65 @@ def _block(stmts, fn_counts):
             init = ast.copy_location(ast.Assign(targets=[s.targets[0]], value=ast.copy_location(ast.Constant(0), ge)), s)
             stmts[i:i + 1] = [init, loop]
             s = init
+        # 6c. `if [not] any(E for T in I if C)` / `x = any(..)` / `return any(..)` (and all(..)) is the flag-and-break loop
+        #     `f = False; for T in I: if C: if E: f = True; break` followed by the statement reading f
+        q = None
+        if isinstance(s, ast.If):
+            core = s.test.operand if isinstance(s.test, ast.UnaryOp) and isinstance(s.test.op, ast.Not) else s.test
+            q = _quantifier(core)
+        elif isinstance(s, (ast.Assign, ast.Return)) and s.value is not None and (isinstance(s, ast.Return) or (len(s.targets) == 1 and isinstance(s.targets[0], ast.Name))):
+            core = s.value
+            q = _quantifier(core)
+            if q and isinstance(s, ast.Assign) and any(isinstance(x, ast.Name) and x.id == s.targets[0].id for x in ast.walk(core)):
+                q = None
+        if q:
+            kind, ge = q
+            g = ge.generators[0]
+            nm = f'{kind}__{core.lineno}'
+            hit = [ast.Assign(targets=[ast.Name(id=nm, ctx=ast.Store())], value=ast.Constant(kind == 'any')), ast.Break()]
+            inner = ast.If(test=ge.elt if kind == 'any' else ast.UnaryOp(op=ast.Not(), operand=ge.elt), body=hit, orelse=[])
+            for c in reversed(g.ifs):
+                inner = ast.If(test=c, body=[inner], orelse=[])
+            loop = ast.For(target=g.target, iter=g.iter, body=[inner], orelse=[], type_comment=None)
+            init = ast.Assign(targets=[ast.Name(id=nm, ctx=ast.Store())], value=ast.Constant(kind != 'any'))
+            for top in (loop, init):
+                for x in ast.walk(top):
+                    if not hasattr(x, 'lineno'):
+                        ast.copy_location(x, core)
+                ast.fix_missing_locations(top)
+            ref = ast.copy_location(ast.Name(id=nm, ctx=ast.Load()), core)
+            if isinstance(s, ast.If):
+                if core is s.test:
+                    s.test = ref
+                else:
+                    s.test.operand = ref
+            else:
+                s.value = ref
+            stmts[i:i + 1] = [init, loop, s]
+            s = init
+        # 2b. `D.setdefault(K, []).append(V)` is `if K not in D: D[K] = [V] else: D[K].append(V)` (D, K, V plain names / attribute chains / constants)
+        if isinstance(s, ast.Expr) and isinstance(s.value, ast.Call) and isinstance(s.value.func, ast.Attribute) and s.value.func.attr == 'append' \
+                and len(s.value.args) == 1 and not s.value.keywords and isinstance(s.value.func.value, ast.Call) \
+                and isinstance(s.value.func.value.func, ast.Attribute) and s.value.func.value.func.attr == 'setdefault' \
+                and len(s.value.func.value.args) == 2 and not s.value.func.value.keywords \
+                and isinstance(s.value.func.value.args[1], ast.List) and not s.value.func.value.args[1].elts:
+            D, K, V = s.value.func.value.func.value, s.value.func.value.args[0], s.value.args[0]
+
+            def plain(e):
+                return all(isinstance(x, (ast.Name, ast.Attribute, ast.Constant, ast.Load)) for x in ast.walk(e))
+            if plain(D) and plain(K) and plain(V):
+                import copy
+                sub = lambda: ast.Subscript(value=copy.deepcopy(D), slice=copy.deepcopy(K), ctx=ast.Load())
+                st = ast.Subscript(value=copy.deepcopy(D), slice=copy.deepcopy(K), ctx=ast.Store())
+                new = ast.If(test=ast.Compare(left=copy.deepcopy(K), ops=[ast.NotIn()], comparators=[copy.deepcopy(D)]),
+                             body=[ast.Assign(targets=[st], value=ast.List(elts=[copy.deepcopy(V)], ctx=ast.Load()))],
+                             orelse=[ast.Expr(value=ast.Call(func=ast.Attribute(value=sub(), attr='append', ctx=ast.Load()), args=[copy.deepcopy(V)], keywords=[]))])
+                for x in ast.walk(new):
+                    ast.copy_location(x, s)
+                stmts[i] = new
+                s = new
+        if isinstance(s, (ast.If, ast.While)):
+            s.test = _nnf(s.test)      # 9. negation normal form of tests
         # recurse into compound statements
         for fld in ('body', 'orelse', 'finalbody'):
             b = getattr(s, fld, None)
